@@ -29,8 +29,8 @@ import (
 const (
 	workerEnv     = "VERIF_C10_WORKER"
 	addressSpace  = 4 << 30
-	allocConst    = 64 << 20
-	allocPerByte  = 1024
+	allocConst    = 8 << 20 // twice the largest protocol-constant buffer a decoder may reserve up front (one 4 MiB sector)
+	allocPerByte  = 64      // in-memory form vs wire form of the densest honest objects stays well below this
 	gcThreshold   = 32 << 20  // collect immediately after a decode that allocated this much
 	recycleThresh = 256 << 20 // start a fresh worker after a decode that allocated this much (fresh pages need no zeroing)
 	// workerMaxStack bounds the goroutine stack of the worker so that unbounded
@@ -61,8 +61,13 @@ func NumCases(kind, n int) uint64 {
 	if n >= 8 {
 		w = n - 7
 	}
-	return uint64(n + byteSubs*n + len(windowVals)*w + 1)
+	return uint64(n + byteSubs*n + len(windowVals)*w + w + 1)
 }
+
+// padLen: the "padded count" family replaces everything after an 8-byte window by padLen bytes of 0xFF and writes
+// padLen into the window - a length prefix that claims exactly as many elements as bytes follow, the largest count
+// that a "count <= bytes left" check lets through.
+const padLen = 1 << 17
 
 // Variation builds case idx of a base into scratch and describes it.
 func Variation(kind int, base []byte, idx uint64, scratch []byte) (in []byte, family, desc string) {
@@ -113,6 +118,14 @@ func Variation(kind int, base []byte, idx uint64, scratch []byte) (in []byte, fa
 		in = append(scratch[:0], base...)
 		in[pos] = v
 		return in, "byte-sub", fmt.Sprintf("byte %d: %#02x -> %#02x", pos, b, v)
+	case n >= 8 && idx >= n+uint64(byteSubs)*n+uint64(len(windowVals))*(n-7):
+		off := idx - n - uint64(byteSubs)*n - uint64(len(windowVals))*(n-7)
+		in = append(scratch[:0], base[:off]...)
+		in = binary.LittleEndian.AppendUint64(in, padLen)
+		for i := 0; i < padLen; i++ {
+			in = append(in, 0xFF)
+		}
+		return in, "padded-count", fmt.Sprintf("bytes %d..%d := little-endian %d, followed by %d bytes of 0xFF instead of the rest", off, off+7, padLen, padLen)
 	default:
 		j := idx - n - uint64(byteSubs)*n
 		off, k := j/uint64(len(windowVals)), j%uint64(len(windowVals))
@@ -148,6 +161,9 @@ type result struct {
 	Panics   int64
 	Allocs   int64
 	MaxAlloc uint64
+	// MaxOver: the largest allocation in excess of 64 bytes per input byte (0 if none exceeded it): calibrates the
+	// allowance against what the tree under test actually needs
+	MaxOver  uint64
 	Findings []Finding
 	Err      string
 }
@@ -226,7 +242,7 @@ var allocSample = []metrics.Sample{{Name: "/gc/heap/allocs:bytes"}}
 // heapAllocs returns the cumulative bytes allocated on the heap. Large objects
 // (> 32 KiB) are accounted immediately; small size classes are accounted when
 // their span is refilled, so the figure may lag by a few spans (well under a
-// MiB) -- negligible against the 64 MiB allowance. The worker decodes on a
+// MiB) -- negligible against the 8 MiB constant of the allowance. The worker decodes on a
 // single goroutine, so the delta around a decode is that decode's allocation.
 func heapAllocs() uint64 {
 	metrics.Read(allocSample)
@@ -309,7 +325,7 @@ func workerMain() {
 	}
 	in := bufio.NewReaderSize(os.Stdin, 1<<16)
 	out := bufio.NewWriter(os.Stdout)
-	scratch := make([]byte, 0, 1<<20)
+	scratch := make([]byte, 0, 1<<21)
 	for {
 		j, err := readJob(in)
 		if err != nil {
@@ -344,6 +360,9 @@ func serve(j job, progress *uint64, scratch *[]byte) (res result) {
 		res.Next = idx + 1
 		if alloc > res.MaxAlloc {
 			res.MaxAlloc = alloc
+		}
+		if over := int64(alloc) - 64*int64(len(input)); over > int64(res.MaxOver) {
+			res.MaxOver = uint64(over)
 		}
 		switch {
 		case pv != nil:
